@@ -130,6 +130,11 @@ MUTATIONS = [
     ("tlexport/main.py", '        if session.matches_session_dgram(packet.ip_src, packet.ip_dst, packet.sport, packet.dport):\n            session.handle_packet(packet, dcid, quic_version)\n            return\n', '        if session.matches_session_dgram(packet.ip_src, packet.ip_dst, packet.sport, packet.dport):\n            session.handle_packet(packet, dcid, quic_version)\n            continue\n', 'main.quic_loop: 4-tuple match goes on to the next session'),
     ("tlexport/main.py", '        quic_sessions.append(new_session)\n        new_session.handle_packet(packet, dcid, quic_version)', '        quic_sessions.append(new_session)', 'main.quic_loop: first packet of a new session not processed'),
     ("tlexport/main.py", '                    candidates = session.server_cids\n                else:\n                    candidates = session.client_cids', '                    candidates = session.client_cids\n                else:\n                    candidates = session.server_cids', 'main.quic_loop: sender-side CIDs as candidates (fragment)'),
+    # group Dsb: dpkt_dsb.py DecryptionSecretBlock.unpack
+    ("tlexport/dpkt_dsb.py", '        self.pkt_data = buf[po:po + self.secrets_length]', '        self.pkt_data = buf[po:po + dpng._align32b(self.secrets_length)]', 'DecryptionSecretBlock: padding returned with the secrets'),
+    ("tlexport/dpkt_dsb.py", '        po = self.__hdr_len__ - 4  # offset of pkt_data', '        po = self.__hdr_len__  # offset of pkt_data', 'DecryptionSecretBlock: data offset 4 bytes late'),
+    ("tlexport/dpkt_dsb.py", '        dpkt.Packet.unpack(self, buf)\n        if self.len > len(buf):\n            raise dpkt.NeedData\n\n        # packet data\n        po = self.__hdr_len__ - 4  # offset of pkt_data', '        dpkt.Packet.unpack(self, buf)\n        if self.len >= len(buf):\n            raise dpkt.NeedData\n\n        # packet data\n        po = self.__hdr_len__ - 4  # offset of pkt_data', 'DecryptionSecretBlock: a block that fills the buffer exactly is refused'),
+    ("tlexport/dpkt_dsb.py", '        opts_offset = po + dpng._align32b(self.secrets_length)\n        self._do_unpack_options(buf, opts_offset)', '        opts_offset = po + self.secrets_length\n        self._do_unpack_options(buf, opts_offset)', 'DecryptionSecretBlock: options read from the padding'),
     # group TlsKeys: session.py key selection
     ("tlexport/session.py", '            if secret.client_random.lower() == self.client_random.hex().lower():', '            if secret.client_random == self.client_random.hex().lower():', 'find_session_secrets: upper-case client randoms of the key log no longer match'),
     ("tlexport/session.py", '                    is_handshake_secret += 2\n                secrets.append(secret)', '                    is_handshake_secret += 2\n                    secrets.append(secret)', 'find_session_secrets: only the server handshake secret is kept'),
@@ -279,6 +284,8 @@ MUTATIONS = [
 REWRITES = [
     ("tlexport/decryptor.py", [('        self.get_cipher_type()\n        self.parse_keys(keys)\n', '        self.parse_keys(keys)\n        self.get_cipher_type()\n')], 'Decryptor.__init__: parse_keys before get_cipher_type'),
     ("tlexport/quic/quic_session.py", [('            case b"\\x13\\x01":\n                self.hash_fun = SHA256\n                self.cipher = AESGCM\n                self.key_length = 16\n\n            # TLS_AES_256_GCM_SHA384\n            case b"\\x13\\x02":\n                self.hash_fun = SHA384\n                self.cipher = AESGCM\n                self.key_length = 32\n', '            case b"\\x13\\x02":\n                self.hash_fun = SHA384\n                self.cipher = AESGCM\n                self.key_length = 32\n\n            case b"\\x13\\x01":\n                self.hash_fun = SHA256\n                self.cipher = AESGCM\n                self.key_length = 16\n')], 'set_tls_decryptors: the first two cases in the other order'),
+    ("tlexport/dpkt_dsb.py", [('        dpkt.Packet.unpack(self, buf)\n        if self.len > len(buf):\n            raise dpkt.NeedData\n\n        # packet data', '        dpkt.Packet.unpack(self, buf)\n        if len(buf) < self.len:\n            raise dpkt.NeedData\n\n        # packet data')], 'DecryptionSecretBlock: `len(buf) < self.len`'),
+    ("tlexport/dpkt_dsb.py", [('        opts_offset = po + dpng._align32b(self.secrets_length)\n        self._do_unpack_options(buf, opts_offset)', '        self._do_unpack_options(buf, po + dpng._align32b(self.secrets_length))')], 'DecryptionSecretBlock: options offset inline'),
     ("tlexport/session.py", [('            if secret.client_random.lower() == self.client_random.hex().lower():', '            if self.client_random.hex().lower() == secret.client_random.lower():')], 'find_session_secrets: comparison operands swapped'),
     ("tlexport/session.py", [('        if len(secret_list) == 0:\n            logging.error(f"Missing Secrets', '        if 0 == len(secret_list):\n            logging.error(f"Missing Secrets')], 'generate_keys select: `0 == len(...)`'),
     ("tlexport/main.py", [('        i = i.replace(",", "") # if somebody is using a "," as seperator\n        split = i.split(":")', '        split = i.replace(",", "").split(":")')], 'get_port_map: comma removal and split in one expression'),
@@ -363,6 +370,8 @@ def group_of(what):
     if fn in ("parse_keys", "Decryptor.__init__"):
         return ["Decrypt2"]
 
+    if fn == "DecryptionSecretBlock":
+        return ["Dsb"]
     if fn in ("find_session_secrets", "generate_keys select", "generate_keys block_size"):
         return ["TlsKeys"]
     if fn in ("get_port_map", "MapPortsAction", "server_ports"):
